@@ -30,7 +30,7 @@ LEVEL_TEXT = ("Real runs of lengths 1-12 with output periods 1-4 and all plug-in
               "time, release, forcing, [output iff step >= 0], tracker, ibm - each exactly once - and close exactly once per module that has one.")
 LEVEL_NOTE = "The two traces are recorded by different mechanisms (wrappers vs interpreter events) and must agree call for call; a run whose tracer saw zero anchored calls is inconclusive."
 RULE = ("case = (variant, steps, period, plug-in spelling, warm/cold, kill schedule). Non-trivial: at least 2 steps and a release after the first step or an IBM kill; distinct by parameters.")
-MANDATORY = ["v1_user_gridforce_module", "v1_user_module_name_ending_in_ROMS", "no_particles_during_first_steps", "stock_scalar_values_checked", "plugin_section_with_module_only", "steps_parsed", "traces_agree", "plugin_relative", "plugin_absolute", "plugin_with_py", "plugin_subdir", "plugin_module_name", "decoy_present", "warm_start_runs",
+MANDATORY = ["plugin_file_name_with_a_dot", "warm_start_record_times_checked", "v1_user_gridforce_module", "v1_user_module_name_ending_in_ROMS", "no_particles_during_first_steps", "stock_scalar_values_checked", "plugin_section_with_module_only", "steps_parsed", "traces_agree", "plugin_relative", "plugin_absolute", "plugin_with_py", "plugin_subdir", "plugin_module_name", "decoy_present", "warm_start_runs",
              "output_plugin_runs", "forcing_plugin_runs", "coded_scalar_values_checked", "ibm_positions_checked", "kills_checked", "ibm_kills_everybody_present", "late_release_in_record", "close_calls_checked"]
 ASSUMPTIONS = ["state and time have no close by design; close is required exactly once only for modules that define one"]
 MIN_CASES_PER_PROCESS = 4  # several runs share one interpreter: state leaking between runs (module caches, shared defaults) becomes observable
@@ -196,7 +196,12 @@ def run_case(case: dict[str, Any], wd: Path) -> dict[str, Any]:
     # --- plug-in files: the real one where the spelling points, a decoy of the same name on sys.path
     decoy_dir = wd / "decoy_path"
     moddir = wd / "mods_on_path"
-    plugins = {"ibm": ("my_ibm", "rec_ibm", "IBM")}
+    dotted = bool(case["idx"] % 7 == 3 and sp in ("relative", "relative_py", "absolute", "absolute_py"))
+    # a plug-in file with a dot in its name (my_ibm.v2.py), next to an older file without it (my_ibm.py) that must not run
+    plugins = {"ibm": ("my_ibm.v2" if dotted else "my_ibm", "rec_ibm", "IBM")}
+    if dotted:
+        write_decoy(wd / "my_ibm.py", "IBM")
+        sit["plugin_file_name_with_a_dot"] = 1
     if variant in ("analytic", "recout"):
         plugins["forcing"] = ("my_forcing", "ana_forcing", "Forcing")
         plugins["grid"] = ("my_grid", "ana_grid", "Grid")
@@ -396,6 +401,12 @@ def run_case(case: dict[str, Any], wd: Path) -> dict[str, Any]:
         if label == "warm":
             # record steps are relative to the original start
             first_step = min(records) if records else 0
+            # the restarted run took up at the last record of the first file (step P): its records are labelled with later output times only
+            bad_t = [s_ for s_ in sorted(records) if s_ <= P or s_ % P]
+            sit["warm_start_record_times_checked"] = sit.get("warm_start_record_times_checked", 0) + len(records)
+            if bad_t and variant != "recout":
+                V.append(C.viol(f"warm-started run (restart at step {P}, output every {P} steps): records labelled with the times of steps {sorted(records)}; "
+                                f"steps {bad_t} are not output times after the restart", **d2))
         for s, r in sorted(records.items()):
             if variant != "stock" and r["temp"] is not None and label == "cold":
                 want = coef["a"] + coef["b"] * np.asarray(r["X"]) + coef["c"] * np.asarray(r["Y"]) + coef["e"] * s * dt
